@@ -11,5 +11,5 @@ from checks import gov_common
 
 
 def run(ctx):
-    gov_common.run_streams(ctx, "C33", ["gov-approvals", "gov-registry"],
+    gov_common.run_streams(ctx, "C33", ["gov-approvals", "gov-registry", "gov-pool", "gov-admission"],
                            "Poly.Props.C33.consumed / no_second_application")
